@@ -35,6 +35,8 @@ def run(rep, tier, seed, replay=None):
     n = 900 if tier == 'quick' else 12000
     if changed or rep.broken:
         n = max(n, 3000)
+    if replay and 'case' not in replay:
+        replay = None       # a witness replay: the witnesses are re-run below in any case
     if replay:
         rc, out = vh(binp, ['c11', 'one'] + replay['case'])
     else:
